@@ -74,12 +74,12 @@ Definition obj_conf (fc : nat) (S : schema) (frs : list fragdef) (tn : string) (
   Proof. induction 1; intro HR; simpl; [reflexivity|]. f_equal; auto. Qed.
 
 
-Lemma sels_ok_inv g cov C S frs nested rt r sels :
-  sels_ok g cov C S frs nested rt r sels = true ->
+Lemma sels_ok_inv g cov C S frs abs rt r sels :
+  sels_ok g cov C S frs abs rt r sels = true ->
   exists g' fns, g = Datatypes.S g' /\ flatten g' S frs rt r sels = Some fns /\
              keys_ok C (map field_key fns) = true /\
              (cov = true -> NoDup (map (fun f => py_field_name C (field_key f)) fns)) /\
-             forallb (field_ok (sels_ok g' cov C S frs true) g' cov S nested rt r) fns = true.
+             forallb (field_ok (sels_ok g' cov C S frs) g' cov S abs rt r) fns = true.
 Proof.
   destruct g as [|g']; [discriminate|]. simpl. intro H.
   destruct (flatten g' S frs rt r sels) as [fns|] eqn:Ef; [| discriminate].
@@ -104,12 +104,12 @@ Proof.
   intros p Hp. rewrite forallb_forall in H1. apply mem_In, H1, Hp.
 Qed.
 
-Lemma sels_ok_ok_inv g cov C S frs : forall rt r sels,
-  sels_ok g cov C S frs true rt r sels = true -> no_spread g sels = true ->
+Lemma sels_ok_ok_inv g cov C S frs : forall b rt r sels,
+  sels_ok g cov C S frs b rt r sels = true -> no_spread g sels = true ->
   exists g' fns, flatten g' S frs rt r sels = Some fns /\ keys_ok C (map field_key fns) = true /\
                  (cov = true -> NoDup (map (fun f => py_field_name C (field_key f)) fns)).
 Proof.
-  intros rt r sels H _. destruct (sels_ok_inv _ _ _ _ _ _ _ _ _ H) as [g' [fns [_ [H1 [H2 [H3 _]]]]]].
+  intros b rt r sels H _. destruct (sels_ok_inv _ _ _ _ _ _ _ _ _ H) as [g' [fns [_ [H1 [H2 [H3 _]]]]]].
   exists g', fns. auto.
 Qed.
 
@@ -134,8 +134,8 @@ Section Level.
   Variable Wrec : ann -> json -> bool.
   Variable mro : string -> option (list pfield).
   (* ok: the guard required of nested selection sets (sels_ok g cov C S frs true, or a larger language) *)
-  Variable ok : string -> string -> list sel -> bool.
-  Hypothesis ok_inv : forall rt r sels, ok rt r sels = true -> no_spread g sels = true ->
+  Variable ok : bool -> string -> string -> list sel -> bool.
+  Hypothesis ok_inv : forall b rt r sels, ok b rt r sels = true -> no_spread g sels = true ->
       exists g' fns, flatten g' S frs rt r sels = Some fns /\ keys_ok C (map field_key fns) = true /\
                      (cov = true -> NoDup (map (fun f => py_field_name C (field_key f)) fns)).
   Hypothesis W_opt : forall a j, W (AOpt a) j = is_null j || W a j.
@@ -154,7 +154,7 @@ Section Level.
   Hypothesis fuel_pos : exists f2, fuel' = Datatypes.S f2.
   Hypothesis W_class : forall pub cn2 rt2 r2 sels2 at2 tvs out2 pub2 fc kv,
       parse_type_def fuel' C S frs pub cn2 r2 sels2 at2 [] (Some tvs) = Ok (out2, pub2, false) ->
-      ok rt2 r2 sels2 = true -> In rt2 tvs ->
+      ok at2 rt2 r2 sels2 = true -> In rt2 tvs ->
       (at2 = true -> has_typename sels2 = true) -> table_ok cs out2 ->
       obj_conf fc S frs rt2 sels2 kv = true ->
       Q (JObj kv) -> chk Wrec (mro cn2) (JObj kv) = true.
@@ -249,7 +249,7 @@ Section Level.
     - rewrite W_cls. exact Hchk.
     - rewrite W_uni. cbn [cls_step].
       (* the response carries __typename = rt *)
-      destruct (ok_inv _ _ _ Hvar Hns) as [g' [fns0 [Hfl0 [Hkeys0 Hnames0]]]].
+      destruct (ok_inv _ _ _ _ Hvar Hns) as [g' [fns0 [Hfl0 [Hkeys0 Hnames0]]]].
       destruct (obj_conf_inv _ _ _ _ _ _ C _ _ _ Hconf Hfl0 Hkeys0) as [Hkv0 Hspec0].
       destruct (has_typename_flatten _ _ _ _ _ _ _ Hht Hfl0) as [ms0 Htn0].
       assert (Hjl : jlookup "__typename" kv' = Some (JStr rt)).
@@ -284,10 +284,10 @@ Section Level.
             by (apply existsb_exists; exists (fnode_of None "__typename" false ms0 None); split; [exact Htn0 | reflexivity]).
           rewrite Hex. reflexivity. }
         rewrite Hadd in Hrun0.
-        pose proof (fields_run_pf _ _ _ _ _ _ _ _ _ _ _ _ _ _ Hrun0) as HF.
+        pose proof (fields_run_pf _ _ _ _ _ _ _ _ _ _ _ _ _ _ _ Hrun0) as HF.
         assert (En : map p_name pfl0 = map (fun f0 => py_field_name C (field_key f0)) fns0).
         { eapply Forall2_map_eq; [exact HF|]. intros f0 pf0 [ctx0 Hpf0].
-          destruct (field_pf_inv _ _ _ _ _ _ _ _ _ _ Hpf0) as [? [? [? [_ [_ Ep]]]]]. subst pf0. reflexivity. }
+          destruct (field_pf_inv _ _ _ _ _ _ _ _ _ _ _ Hpf0) as [? [? [? [_ [_ Ep]]]]]. subst pf0. reflexivity. }
         assert (Hcovt : cov = true) by exact Hcov.
         assert (Hnd : NoDup (map p_name pfl0)) by (rewrite En; apply Hnames0, Hcovt).
         rewrite (last_wins_nodup _ Hnd).
@@ -306,15 +306,15 @@ Section Level.
       rewrite Hpick. exact Hchk.
   Qed.
 
-  Lemma field_value cn rt r tv nested f pf ctx pub0 exc pub1 k v :
-    field_ok ok g cov S nested rt r f = true -> tv_ok nested rt tv ->
-    field_pf C S frs fuel' cn r tv f = Ok (pf, ctx) ->
+  Lemma field_value cn rt r tv at_ f pf ctx pub0 exc pub1 k v :
+    field_ok ok g cov S at_ rt r f = true -> tv_ok rt tv ->
+    field_pf C S frs fuel' cn r tv at_ f = Ok (pf, ctx) ->
     parse_subs (parse_type_def fuel' C S frs) S ctx f pub0 = Ok (exc, pub1, false) ->
     table_ok cs exc -> Q v -> value_conf rt f k v ->
     W (p_ann pf) v = true.
   Proof.
     intros Hok Htv Hpf Hsub Htab HQ Hv.
-    destruct (field_pf_inv _ _ _ _ _ _ _ _ _ _ Hpf) as [t [a0 [il [Ht [Ha Hpf']]]]]. subst pf.
+    destruct (field_pf_inv _ _ _ _ _ _ _ _ _ _ _ Hpf) as [t [a0 [il [Ht [Ha Hpf']]]]]. subst pf.
     cbn [p_ann mk_pfield].
     unfold field_ok in Hok. apply andb_true_iff in Hok as [Hmix Hok].
     destruct (fn_mixins f) eqn:Emix; [| discriminate]. clear Hmix.
@@ -324,14 +324,16 @@ Section Level.
       apply andb_true_iff in Hok as [Hok Hstr]. apply andb_true_iff in Hok as [Hok Hsft].
       apply andb_true_iff in Hok as [Hsub0 Hnc].
       subst v. rewrite Etn in Ht. rewrite Ht in Hsft.
-      destruct Htv as [Htv | [tvs [Htv [Hnest Hin]]]]; subst tv.
+      destruct Htv as [Htv | [tvs [Htv Hin]]]; subst tv.
       + unfold field_ann_lit in Ha.
         destruct t as [| |[s| |]]; try discriminate. apply String.eqb_eq in Hsft. subst s.
         simpl in Ha. unfold named_ann in Ha.
         destruct (lookup_type S "String") as [[]|]; try discriminate. simpl in Ha. inversion Ha; subst.
         apply cond_ann_W. apply W_str.
       + unfold field_ann_lit in Ha. rewrite Etn in Ha. destruct tvs as [|v0 vs0]; [contradiction|].
-        rewrite String.eqb_refl in Ha. inversion Ha; subst. unfold cond_ann. exact (W_lit (v0 :: vs0) rt Hin).
+        rewrite String.eqb_refl in Ha. inversion Ha; subst.
+        destruct (true && at_); [unfold cond_ann; exact (W_lit (v0 :: vs0) rt Hin)|].
+        apply cond_ann_W. exact (W_lit (v0 :: vs0) rt Hin).
     - assert (Hne : fn_name f <> "__typename") by (apply String.eqb_neq, Etn).
       rewrite Ht in Hok. apply andb_true_iff in Hok as [Hok0 Hok]. apply andb_true_iff in Hok0 as [Hwf Hagree].
       destruct Hv as [ft [Hft Hconf]].
@@ -419,13 +421,13 @@ Section Level.
     field_check W kv pf = true /\
     (forall v, jlookup (field_key f) kv = Some v -> W (p_ann pf) v = true).
 
-  Lemma level_facts cn rt r tv nested fns pub pfl extra pub' k kv (K : list string) :
-    fields_run (parse_type_def fuel' C S frs) C S frs fuel' cn r tv fns pub pfl extra pub' false ->
-    forallb (field_ok ok g cov S nested rt r) fns = true ->
+  Lemma level_facts cn rt r tv at_ fns pub pfl extra pub' k kv (K : list string) :
+    fields_run (parse_type_def fuel' C S frs) C S frs fuel' cn r tv at_ fns pub pfl extra pub' false ->
+    forallb (field_ok ok g cov S at_ rt r) fns = true ->
     (* K: the response keys of the whole object (own fields and, with mixins, the base classes') *)
     (forall f, In f fns -> String.eqb (py_field_name C (field_key f)) (field_key f)
                            || negb (mem (py_field_name C (field_key f)) K) = true) ->
-    tv_ok nested rt tv -> table_ok cs extra ->
+    tv_ok rt tv -> table_ok cs extra ->
     (forall p, In p kv -> In (fst p) K) ->
     forallb (key_spec (conf_val k S frs) S rt kv) fns = true ->
     (forall p, In p kv -> Q (snd p)) ->
@@ -440,7 +442,7 @@ Section Level.
       - eapply table_ok_incl; eauto.
       - apply jlookup_In in Ev. apply (HQ _ Ev).
       - eapply key_spec_value; eauto. }
-    destruct (field_pf_inv _ _ _ _ _ _ _ _ _ _ Hpf) as [t [a0 [il [Ht [Ha Hpf']]]]].
+    destruct (field_pf_inv _ _ _ _ _ _ _ _ _ _ _ Hpf) as [t [a0 [il [Ht [Ha Hpf']]]]].
     assert (Hk : field_key_of pf = field_key f) by (subst pf; apply mk_pfield_key).
     split; [exact Hk|]. split; [subst pf; reflexivity|]. split; [| exact Hval].
     unfold field_check. rewrite Hk. destruct (jlookup (field_key f) kv) as [v|] eqn:Ev; [apply Hval; reflexivity|].
@@ -454,7 +456,7 @@ Section Level.
       rewrite E in Hkeys. simpl in Hkeys. apply negb_true_iff, mem_false_In in Hkeys. contradiction. }
     rewrite Hal. subst pf. cbn [p_default_none mk_pfield]. rewrite Hc, andb_true_r.
     (* the typename literal is never conditional *)
-    destruct il; [| reflexivity]. exfalso.
+    destruct il; [| reflexivity]. destruct at_ eqn:Eat; [| reflexivity]. exfalso.
     unfold field_ann_lit in Ha.
     assert (Hlit : fn_name f = "__typename" /\ exists v vs, tv = Some (v :: vs)).
     { destruct tv as [[|v0 vs]|].
@@ -464,8 +466,7 @@ Section Level.
         + apply bind_ok in Ha. destruct Ha as [r0 [_ Ha]]. inversion Ha.
       - apply bind_ok in Ha. destruct Ha as [r0 [_ Ha]]. inversion Ha. }
     destruct Hlit as [Hn [v0 [vs Etv]]].
-    destruct Htv as [Htv | [tvs [_ [Hnest _]]]]; [congruence|].
-    unfold field_ok in Hok. rewrite Hn in Hok. simpl in Hok. rewrite Hnest, Hc in Hok.
+    unfold field_ok in Hok. rewrite Hn in Hok. simpl in Hok. rewrite Hc in Hok.
     destruct (fn_mixins f); simpl in Hok; [| discriminate].
     destruct (fn_sub f); simpl in Hok; discriminate.
   Qed.
@@ -509,13 +510,13 @@ End Level.
 (* Main induction: acceptance                                                                    *)
 
 (* one level of the generator on a guarded selection set *)
-Lemma level_inv C S frs fuel pub cn rt r sels at_ tv out pub' g cov nested :
+Lemma level_inv C S frs fuel pub cn rt r sels at_ tv out pub' g cov :
   parse_type_def (Datatypes.S fuel) C S frs pub cn r sels at_ [] tv = Ok (out, pub', false) ->
-  sels_ok g cov C S frs nested rt r sels = true ->
+  sels_ok g cov C S frs at_ rt r sels = true ->
   (at_ = true -> has_typename sels = true) ->
   exists f2 g' fns pfl extra,
     fuel = Datatypes.S f2 /\ g = Datatypes.S g' /\ flatten g' S frs rt r sels = Some fns /\
-    fields_run (parse_type_def fuel C S frs) C S frs fuel cn r tv fns (pub ++ [cn]) pfl extra pub' false /\
+    fields_run (parse_type_def fuel C S frs) C S frs fuel cn r tv at_ fns (pub ++ [cn]) pfl extra pub' false /\
     out = {| c_name := cn; c_bases := ["BaseModel"]; c_fields := pfl |} :: extra.
 Proof.
   intros H Hok Hat. simpl in H. apply body_inv in H.
@@ -534,18 +535,18 @@ Proof.
   exists f2, g', fns, pfl, extra. repeat split; auto.
 Qed.
 
-Theorem obj_accepts C S frs : forall fuel g cov nested pub cn rt r sels at_ tv out pub' cs fc kv n,
+Theorem obj_accepts C S frs : forall fuel g cov pub cn rt r sels at_ tv out pub' cs fc kv n,
   parse_type_def fuel C S frs pub cn r sels at_ [] tv = Ok (out, pub', false) ->
-  sels_ok g cov C S frs nested rt r sels = true -> tv_ok nested rt tv ->
+  sels_ok g cov C S frs at_ rt r sels = true -> tv_ok rt tv ->
   (at_ = true -> has_typename sels = true) -> table_ok cs out ->
   obj_conf fc S frs rt sels kv = true ->
   n >= fuel + 2 ->
   accepts n cs (schema_enums S) (AClass cn) (JObj kv) = true.
 Proof.
   induction fuel as [|fuel IH];
-    intros g cov nested pub cn rt r sels at_ tv out pub' cs fc kv n Hp Hok Htv Hat Htab Hc Hn;
+    intros g cov pub cn rt r sels at_ tv out pub' cs fc kv n Hp Hok Htv Hat Htab Hc Hn;
     [discriminate Hp|].
-  destruct (level_inv _ _ _ _ _ _ _ _ _ _ _ _ _ _ _ _ Hp Hok Hat)
+  destruct (level_inv _ _ _ _ _ _ _ _ _ _ _ _ _ _ _ Hp Hok Hat)
     as [f2 [g' [fns [pfl [extra [Ef [Eg [Hfl [Hrun Hout]]]]]]]]].
   destruct (sels_ok_inv _ _ _ _ _ _ _ _ _ Hok) as [g'' [fns' [Eg' [Hfl' [Hkeys [_ Hfields]]]]]].
   rewrite Eg in Eg'. inversion Eg'; subst g''. clear Eg'.
@@ -562,7 +563,7 @@ Proof.
   eapply (level_accepts C (accepts (Datatypes.S n1) cs (schema_enums S))).
   eapply (level_facts C S frs fuel g' cov cs (accepts (Datatypes.S n1) cs (schema_enums S)) (fun _ => True)
                       class_accepts (accepts n1 cs (schema_enums S)) (mro_fields n1 cs)
-                      (sels_ok g' cov C S frs true) (sels_ok_ok_inv g' cov C S frs))
+                      (sels_ok g' cov C S frs) (sels_ok_ok_inv g' cov C S frs))
     with (K := map field_key fns);
     try eassumption; try reflexivity; auto.
   - intros m j H1 H2. apply (scalar_leaf_accepts C S); auto.
@@ -597,18 +598,18 @@ Proof.
   destruct (find _ (cf_scalars C)); reflexivity.
 Qed.
 
-Theorem obj_covers C S frs : forall fuel g nested pub cn rt r sels at_ tv out pub' cs fc kv n,
+Theorem obj_covers C S frs : forall fuel g pub cn rt r sels at_ tv out pub' cs fc kv n,
   parse_type_def fuel C S frs pub cn r sels at_ [] tv = Ok (out, pub', false) ->
-  sels_ok g true C S frs nested rt r sels = true -> tv_ok nested rt tv ->
+  sels_ok g true C S frs at_ rt r sels = true -> tv_ok rt tv ->
   (at_ = true -> has_typename sels = true) -> table_ok cs out ->
   obj_conf fc S frs rt sels kv = true -> jwf (JObj kv) = true ->
   n >= fuel + 2 ->
   covers n cs (AClass cn) (JObj kv) = true.
 Proof.
   induction fuel as [|fuel IH];
-    intros g nested pub cn rt r sels at_ tv out pub' cs fc kv n Hp Hok Htv Hat Htab Hc Hwf Hn;
+    intros g pub cn rt r sels at_ tv out pub' cs fc kv n Hp Hok Htv Hat Htab Hc Hwf Hn;
     [discriminate Hp|].
-  destruct (level_inv _ _ _ _ _ _ _ _ _ _ _ _ _ _ _ _ Hp Hok Hat)
+  destruct (level_inv _ _ _ _ _ _ _ _ _ _ _ _ _ _ _ Hp Hok Hat)
     as [f2 [g' [fns [pfl [extra [Ef [Eg [Hfl [Hrun Hout]]]]]]]]].
   destruct (sels_ok_inv _ _ _ _ _ _ _ _ _ Hok) as [g'' [fns' [Eg' [Hfl' [Hkeys [Hnames Hfields]]]]]].
   rewrite Eg in Eg'. inversion Eg'; subst g''. clear Eg'.
@@ -626,7 +627,7 @@ Proof.
   eapply (level_covers C (covers (Datatypes.S n1) cs)); eauto.
   - eapply (level_facts C S frs fuel g' true cs (covers (Datatypes.S n1) cs) (fun j => jwf j = true)
                         class_covers (covers n1 cs) (mro_fields n1 cs)
-                        (sels_ok g' true C S frs true) (sels_ok_ok_inv g' true C S frs))
+                        (sels_ok g' true C S frs) (sels_ok_ok_inv g' true C S frs))
       with (K := map field_key fns);
       try eassumption; try reflexivity; auto.
     + intros l Hl' x Hx. simpl in Hl'. rewrite forallb_forall in Hl'. apply Hl', Hx.
@@ -659,7 +660,7 @@ Lemma conf_op_obj fc S frs root sels j :
 Proof.
   unfold is_object, conf_op, conf_op_gen, conf_val. intros Ho H.
   destruct fc as [|[|k]]; try (destruct j; simpl in H; discriminate H).
-  assert (H' : conf_val_gen leaf_conf false (Datatypes.S k) S frs (TNamed root) [(false, sels)] j = true /\
+  assert (H' : conf_val_gen leaf_conf false false (Datatypes.S k) S frs (TNamed root) [(false, sels)] j = true /\
                j <> JNull)
     by (destruct j; try discriminate H; split; try exact H; discriminate).
   clear H. destruct H' as [H' Hn]. cbn [conf_val_gen] in H'.
